@@ -49,8 +49,9 @@ func processCfg() int {
 func genCase(t *rapid.T) Case {
 	c := Case{Cfg: processCfg()}
 	cfg := &sc.Configs[c.Cfg]
-	// zero-stake-division is a crash in takePenalty that belongs to C05; it is always kept out here.
-	c.Excl = sc.Excl{ZeroStake: true, ZeroToken: kit.IsKnown(classZeroPenalty)}
+	// zero-stake-division is a crash in takePenalty that belongs to C05; it is kept out while the
+	// tree still has it (probed once per process).
+	c.Excl = sc.Excl{ZeroStake: sc.ZeroStakePenaltyPanics(c.Cfg), ZeroToken: kit.IsKnown(classZeroPenalty)}
 	c.Gen = sc.GenGenesis(t, cfg)
 	maxBlocks := 40
 	if kit.Thorough() {
@@ -204,6 +205,11 @@ func runChain(c Case, digestOnly bool) (kit.Result, string) {
 				return kit.Discarded("infra: " + err.Error()), ""
 			}
 			return kit.Fail("build", "block spec %d: %v", bi, err), ""
+		}
+		for _, sk := range step.Skipped {
+			if strings.HasPrefix(sk, "excluded:") || strings.HasPrefix(sk, "skipped:") {
+				w.Excluded[sk]++
+			}
 		}
 		if step.Halted {
 			halted = true
@@ -389,6 +395,6 @@ var _ = kit.Register(kit.Prop[Case]{
 		"Processor.Process of node B on fresh state databases and compared field by field and with the header, then imported by InsertChain on B; " +
 		"in a third of the cases a third node imports the same chain in batches. Non-trivial: >= 4 such blocks and >= 1 block with a staking transaction.",
 	Gen: genCase, Run: runCase,
-	Quick: 60, Thorough: 500, Chunk: 10, MinNonTrivialPct: 50,
+	Quick: 100, Thorough: 320, Chunk: 10, MinNonTrivialPct: 50,
 	QuickBudgetS: 60, ThoroughBudgetS: 540,
 })
